@@ -26,6 +26,11 @@ type C18Case struct {
 	// result of an earlier identical run: a user runs go generate again) or
 	// "stale" (an older result). The CLI contract is the same in all three.
 	Prior string `json:"prior,omitempty"`
+	// LogDiff: the "-log changes neither code nor exit status" clause taken
+	// differentially where no reference bytes exist: -out into a directory that
+	// does not exist. The same invocation is run with and without -log in two
+	// fresh worlds; status and what is at the output path must agree.
+	LogDiff bool `json:"log_diff,omitempty"`
 }
 
 var c18Priors = []string{"none", "same", "stale"}
@@ -101,7 +106,60 @@ func genC18(cfg Config, ws *WorldSet, accepted []int, i int) C18Case {
 	return c
 }
 
+func genC18LogDiff(cfg Config, ws *WorldSet, accepted []int, j int) C18Case {
+	wi := accepted[(j/4)%len(accepted)]
+	world := ws.Worlds[wi]
+	r := sim.Derive(cfg.Seed, "C18", "logdiff", j)
+	setup := "{W}/" + world.Setup
+	form := []string{"rel-pkgdir", "rel-modroot"}[j%2]
+	cwd, in, gofile := InputForm(form, setup)
+	iv := Invocation{Print: (j/2)%2 == 1, Log: true, Cwd: cwd, Input: in, GoFile: gofile}
+	iv.OutArg = filepath.Dir(setup) + "/" + sim.Pick(r, []string{"gen/v1/conv.gen.go", "missing/out.go", "a/b/c/logo.go"})
+	iv.OutPath = ResolveOut(cwd, in, gofile, iv.OutArg)
+	return C18Case{World: world, Inv: iv, Form: form, OutKind: "missing-dir", Canon: ws.Canon[wi].Out, Bin: "plain", Prior: "none", LogDiff: true}
+}
+
+func execC18LogDiff(env *sim.Env, c C18Case) CaseResult {
+	st := NewStats()
+	res := CaseResult{Stats: st}
+	var obs [2]*StepResult
+	var roots [2]string
+	for k, log := range []bool{true, false} {
+		root, err := env.NewWorldDir(c.World, "c18ld")
+		if err != nil {
+			res.Infra = err
+			return res
+		}
+		defer env.DropWorldDir(root)
+		iv := c.Inv
+		iv.Log = log
+		rs := ExecSteps(env, root, []Step{{Op: "run", Inv: &iv, Bin: c.Bin}}, st)
+		if rs[0].Err != nil || rs[0].Obs == nil || strings.HasPrefix(rs[0].Obs.Status, "starterr") {
+			res.Infra = fmt.Errorf("run: %v", rs[0].Err)
+			return res
+		}
+		obs[k], roots[k] = &rs[0], root
+	}
+	a, b := obs[0], obs[1]
+	st.Inc("n:log_differentials")
+	st.Seen("nontrivial", fmt.Sprintf("%s|logdiff|%s|%v", c.World.Digest(), c.Form, c.Inv.Print))
+	sig := map[string]string{"aspect": "log-changes-outcome", "flags": c.Inv.FlagSet(), "form": c.Form, "out": c.OutKind, "prior": "none"}
+	switch {
+	case a.Obs.Status != b.Obs.Status:
+		res.Viol = append(res.Viol, &Violation{Property: "C18", Invariant: "C18/log-neutral", Sig: sig,
+			Summary: fmt.Sprintf("[-out into a directory that does not exist, input %s] with -log the run ends %s, without -log %s", c.Form, a.Obs.Status, b.Obs.Status)})
+	case a.OutExists != b.OutExists || !bytes.Equal(a.OutBytes, b.OutBytes):
+		res.Viol = append(res.Viol, &Violation{Property: "C18", Invariant: "C18/log-neutral", Sig: sig,
+			Summary: fmt.Sprintf("[-out into a directory that does not exist, input %s] -log changes what is at the output path", c.Form)})
+	}
+	res.Log = fmt.Sprintf("C18 logdiff world=%s form=%s with=%s without=%s viol=%d", c.World.Digest(), c.Form, a.Obs.Status, b.Obs.Status, len(res.Viol))
+	return res
+}
+
 func execC18(env *sim.Env, c C18Case) CaseResult {
+	if c.LogDiff {
+		return execC18LogDiff(env, c)
+	}
 	st := NewStats()
 	res := CaseResult{Stats: st}
 	w0 := c.World.Clone()
@@ -239,6 +297,9 @@ func execC18(env *sim.Env, c C18Case) CaseResult {
 
 func shrinkC18(c C18Case) []C18Case {
 	var out []C18Case
+	if c.LogDiff {
+		return nil
+	}
 	if c.Bin == "sim" {
 		d := c
 		d.Bin, d.Plan = "plain", nil
@@ -319,8 +380,14 @@ func runC18(cfg Config, args []string) int {
 		return Finish(rep0)
 	}
 	per := 8 * len(c18Outs) * len(c18Forms)
-	b := &Batch[C18Case]{Property: "C18", Level: "exploration", Cfg: cfg, Env: env, N: len(accepted) * per,
-		Gen:    func(i int) C18Case { return genC18(cfg, ws, accepted, i) },
+	nLogDiff := 4 * len(accepted)
+	b := &Batch[C18Case]{Property: "C18", Level: "exploration", Cfg: cfg, Env: env, N: len(accepted)*per + nLogDiff,
+		Gen: func(i int) C18Case {
+			if i >= len(accepted)*per {
+				return genC18LogDiff(cfg, ws, accepted, i-len(accepted)*per)
+			}
+			return genC18(cfg, ws, accepted, i)
+		},
 		Exec:   func(c C18Case) CaseResult { return execC18(env, c) },
 		Shrink: shrinkC18,
 		Rule: "for every accepted world (fixture and synthetic, incl. setup files named with several dots and nested package directories) the complete product {-dry} x {-print} x {-log} x {-out: none, other name in the same directory, existing sub-directory, a directory outside the module reached with ..} x " +
